@@ -65,11 +65,19 @@ def seeds_table():
     return "\n".join(out) + "\n"
 
 
+def selftest_part():
+    """07-selftest.md with the measured tables (7.1, 7.2) inserted before section 7.3"""
+    t = part("07-selftest.md")
+    tables = "### 7.1 Measured self-test results (from the thorough-tier evidence files)\n\n" + \
+        selftest_table() + "\n### 7.2 Independently seeded changes\n\n" + seeds_table() + "\n"
+    i = t.index("### 7.3")
+    return t[:i] + tables + t[i:]
+
+
 def main():
     text = part("00-head.md") + "\n" + part("01-why.md") + "\n" + part("02-machinery.md") + "\n" + \
         part("03-kinds.md") + "\n" + per_property() + "\n" + part("05-defects.md") + "\n" + \
-        part("06-protocol.md") + "\n" + part("07-selftest.md") + "\n### 7.1 Measured self-test results (from the thorough-tier evidence files)\n\n" + \
-        selftest_table() + "\n### 7.2 Independently seeded changes\n\n" + seeds_table() + "\n" + \
+        part("06-protocol.md") + "\n" + selftest_part() + "\n" + \
         part("08-limits.md")
     open(os.path.join(V, "DESIGN.md"), "w").write(text)
     print(len(text.splitlines()), "lines")
